@@ -65,6 +65,10 @@ def run(ctx):
     if ctx.replay:
         r = json.load(open(ctx.replay))
         cases, mm = [c for c in r["cases"] if c.startswith("c09 ")], [c for c in r["cases"] if c.startswith("c09mm")]
+        regr = [c for c in r["cases"] if c.startswith("c09r ")]
+        if regr:
+            for c in regr:
+                print(c, "impl:", ctx.run_lines(vh, [c], shards=1)[0] if " chunks " not in c else "-", "model:", ctx.run_lines(model, [c], shards=1)[0])
     else:
         cases, mm = gen_cases(ctx)
         import os
@@ -122,9 +126,62 @@ def run(ctx):
         ctx.count(c, False)
         if i != m:
             ctx.violation("%s: implementation %s, model %s" % (c, i, m), {"cases": [c], "class": {"path": "mismatch"}})
+    # register-level SSSE3 routines (amd64): the instruction-level model of Model/Ssse3.v against the assembly
+    import os as _os
+    rng = ctx.rng
+    reg = []
+    rconsts = [0, 1, 2, 0x100, 0xFFFF, 0x8000] + [rng.randrange(2, 65536) for _ in range(10 if ctx.tier != "thorough" else 120)]
+    def rb(n, kind):
+        if kind == "seq":
+            return bytes((7 * k + 1) & 255 for k in range(n))
+        if kind == "ff":
+            return b"\xff" * n
+        if kind == "nib":
+            return bytes(((k & 15) << 4 | (15 - (k & 15))) for k in range(n))
+        return bytes(rng.randrange(256) for _ in range(n))
+    for kind in ("seq", "ff", "nib", "rand", "rand", "rand"):
+        reg.append("c09r s2a 0 " + rb(32, kind).hex())
+        reg.append("c09r a2s 0 " + rb(32, kind).hex())
+    for c in rconsts:
+        for kind in ("seq", "ff", "rand"):
+            reg.append("c09r mulalt %d %s" % (c, rb(32, kind).hex()))
+            reg.append("c09r mulstd %d %s" % (c, rb(32, kind).hex()))
+            reg.append("c09r muladd %d %s" % (c, rb(64, kind).hex()))
+    ir = ctx.run_lines(vh, reg)
+    mr = ctx.run_lines(model, reg)
+    dist["register_level"] = {}
+    for c, i, m in zip(reg, ir, mr):
+        op = c.split()[1]
+        dist["register_level"][op] = dist["register_level"].get(op, 0) + 1
+        ctx.count(c, op in ("s2a", "a2s") or int(c.split()[2]) > 1)
+        if i != m and reported < 8:
+            reported += 1
+            ctx.violation("%s: SSSE3 routine output %s differs from the instruction-level model %s" % (c[:60], i[:70], m[:70]),
+                          {"cases": [c], "impl": i, "model": m, "class": {"path": "ssse3-register", "op": op}}, no_failing_input=False)
+    # the instruction-level slice loop against the dispatch kernel on whole buffers
+    chunk_lines, kern_expect = [], []
+    for n in (32, 64, 96, 160):
+        for acc in (0, 1):
+            c = rng.randrange(2, 65536)
+            inb, outb = rb(n, "rand"), rb(n, "rand")
+            chunk_lines.append("c09r chunks %d %d %s %s" % (acc, c, inb.hex(), outb.hex()))
+    cm = ctx.run_lines(model, chunk_lines)
+    from . import gf as _gf
+    for c, m in zip(chunk_lines, cm):
+        w = c.split()
+        acc, cc, inb, outb = int(w[2]), int(w[3]), bytes.fromhex(w[4]), bytes.fromhex(w[5])
+        want = bytearray()
+        for k in range(0, len(inb), 2):
+            x = _gf.gmul(cc, inb[k] | inb[k + 1] << 8) ^ ((outb[k] | outb[k + 1] << 8) if acc else 0)
+            want += bytes([x & 255, x >> 8])
+        ctx.count(c, True)
+        if m != want.hex():
+            ctx.violation("%s: instruction-level SSSE3 loop model differs from field multiplication" % c[:50],
+                          {"cases": [c], "model": m, "want": want.hex(), "class": {"path": "ssse3-chunks-model"}}, no_failing_input=True)
     return ctx.finish(
         "proof",
         rule="case = (path, mul|muladd, constant, length, data, alignments); each case runs the kernel with both buffers ending at a PROT_NONE page, starting after one, and at up to 64 src/dst alignments between canaries; non-trivial = constant not 0/1 and length >= 2",
         extra={"input_distribution": dist,
+               "register_level": "c09r lines: each SSSE3 routine (standardToAltMap, altToStandardMap, mulAltMap, mulSSSE3, mulAndAddSSSE3) is run on the same 16-byte registers through the verif hooks and in the extracted instruction-level model (Model/Ssse3.v); outputs must be byte-identical",
                "compared": "output bytes (digest; full bytes on mismatch) vs extracted kernel model and vs extracted kspec_fast (= kspec by C09_kspec_fast); fault/canary/input-modified status",
                "runtime_evidence_only": "machine-level memory accesses of the assembly are observed (guard pages, canaries), not proved; the proof covers the loops' index arithmetic and the table decomposition"})
